@@ -180,3 +180,130 @@ def run_prevented_provided(rep, tier):
     finally:
         ws.close()
     return [], fails
+
+
+# ------------------------------------------------------------------------------------------------------------------------
+# embedded fields: for wire.Struct / wire.FieldsOf an embedded field is a field like any other, named by its type's name
+SRC3 = '''package em
+
+type Base struct{ N int }
+
+type Ptr struct{ N int }
+
+type Name string
+
+type App struct {
+	Base
+	*Ptr
+	Name Name
+}
+
+func NewBase() Base { return Base{N: 1} }
+
+func NewPtr() *Ptr { return &Ptr{N: 2} }
+
+func NewName() Name { return "n" }
+
+func NewApp() App { return App{Base{5}, &Ptr{6}, "made"} }
+
+type Use struct {
+	B Base
+	P *Ptr
+}
+
+func NewUse(b Base, p *Ptr) Use { return Use{b, p} }
+'''
+HDR3 = '''//go:build wireinject
+// +build wireinject
+
+package em
+
+import "github.com/google/wire"
+
+'''
+INJ3_OK = HDR3 + '''func InitStar() App { panic(wire.Build(NewBase, NewPtr, NewName, wire.Struct(new(App), "*"))) }
+
+func InitNamed() *App { panic(wire.Build(NewBase, NewPtr, wire.Struct(new(App), "Ptr", "Base"))) }
+
+func InitFields() Use { panic(wire.Build(NewApp, wire.FieldsOf(new(App), "Base", "Ptr"), NewUse)) }
+'''
+# one needed source removed: the type of an embedded field selected by "*" / by name has no provider
+INJ3_MISS = [
+    ("star-embedded-value", "Base", HDR3 + 'func Init() App { panic(wire.Build(NewPtr, NewName, wire.Struct(new(App), "*"))) }\n'),
+    ("star-embedded-pointer", "Ptr", HDR3 + 'func Init() App { panic(wire.Build(NewBase, NewName, wire.Struct(new(App), "*"))) }\n'),
+    ("named-embedded", "Base", HDR3 + 'func Init() App { panic(wire.Build(NewPtr, wire.Struct(new(App), "Base", "Ptr"))) }\n'),
+]
+MAIN3 = '''package main
+
+import (
+	"fmt"
+
+	"%s/em"
+)
+
+func main() {
+	a := em.InitStar()
+	fmt.Println("star", a.Base.N, a.Ptr != nil && a.Ptr.N == 2, a.Name)
+	b := em.InitNamed()
+	fmt.Println("named", b.Base.N, b.Ptr != nil && b.Ptr.N == 2, b.Name == "")
+	u := em.InitFields()
+	fmt.Println("fields", u.B.N, u.P != nil && u.P.N == 6)
+}
+''' % MOD
+WANT3 = ["star 1 true n", "named 1 true true", "fields 5 true"]
+
+
+def run_embedded(rep, tier, only_missing=False):
+    """embedded fields of a struct provider / FieldsOf: selected by "*" and by the type's name, fed by the designated source; when
+    that source is removed the program is rejected and the missing type named (never left at its zero value)"""
+    import re
+    fails = []
+    if not only_missing:
+        ws = Workspace()
+        try:
+            os.makedirs(ws.root + "/em")
+            os.makedirs(ws.root + "/cmd/em")
+            open(ws.root + "/em/em.go", "w").write(SRC3)
+            open(ws.root + "/em/wire.go", "w").write(INJ3_OK)
+            open(ws.root + "/cmd/em/main.go", "w").write(MAIN3)
+            rc, out, err = ws.wire(["gen", "./em"])
+            rep.evaluations += 3
+            rep.nontrivial.add("embedded-fields")
+            if rc != 0 or panicked(err):
+                fails.append({"stream": "c12-embedded", "why": ["wire gen fails on a struct with embedded fields: " + err.strip()[-300:]],
+                              "source": SRC3 + INJ3_OK})
+            else:
+                rc, out, err = run(["go", "run", "./cmd/em"], cwd=ws.root, env=dict(GOENV), timeout=300)
+                if rc != 0 or out.strip().split("\n") != WANT3:
+                    fails.append({"stream": "c12-embedded", "source": SRC3 + INJ3_OK, "wire_gen.go": (ws.read("em") or "")[:2000],
+                                  "why": ["embedded fields selected by \"*\", by name and by FieldsOf: observed %r, expected %r %s"
+                                          % (out.strip().split("\n"), WANT3, (err or "")[-200:] if rc != 0 else "")]})
+        finally:
+            ws.close()
+    for label, missing, inj in INJ3_MISS:
+        ws = Workspace()
+        try:
+            os.makedirs(ws.root + "/em")
+            open(ws.root + "/em/em.go", "w").write(SRC3)
+            open(ws.root + "/em/wire.go", "w").write(inj)
+            rc, out, err = ws.wire(["gen", "./em"])
+            rep.evaluations += 1
+            rep.nontrivial.add("embedded-missing:" + label)
+            why = []
+            if panicked(err):
+                why.append("wire gen panics: " + err.strip()[-200:])
+            if rc == 0:
+                why.append("wire gen exits 0 although %s (type of an embedded field of the struct provider) has no source" % missing)
+            if not re.search(r"no provider found for \*?[\w./]*em\.%s\b" % missing, err):
+                why.append("no diagnostic names the missing type em.%s: %s" % (missing, err.strip()[-200:]))
+            if ws.read("em") is not None:
+                why.append("wire_gen.go was written: " + ws.read("em")[-400:])
+            if why:
+                fails.append({"stream": "c12-embedded-missing", "case": label, "source": SRC3 + inj, "why": why})
+        finally:
+            ws.close()
+    return [], fails
+
+
+def run_embedded_missing(rep, tier):
+    return run_embedded(rep, tier, only_missing=True)
